@@ -144,7 +144,7 @@ def parts(tier):
         Part("money", "hyp", strategy=gen_money(), n=40000 if big else 2000),
         Part("term", "hyp", strategy=gen_term(), n=200000 if big else 10000),
         Part("rate", "hyp", strategy=gen_rate(), n=100000 if big else 5000),
-        Part("universe", "hyp", strategy=universe.gen_linear_case(n_max=3), n=100000 if big else 5000, chunk=1500),
+        Part("universe", "hyp", strategy=universe.gen_linear_case(n_max=4, max_steps=16 if big else 9), n=200000 if big else 5000, chunk=1500),
     ]
 
 
